@@ -296,6 +296,16 @@ func (rc *replayCtx) plan(x string, t types.Type, depth int) *cval {
 			st.fields = []*cval{k, e}
 			c.fields = append(c.fields, st)
 		}
+	case KArray:
+		at := t.Underlying().(*types.Array)
+		if at.Len() > 32 {
+			c.kind = "unsupported"
+			return c
+		}
+		c.kind = "array"
+		for i := int64(0); i < at.Len(); i++ {
+			c.elems = append(c.elems, rc.plan(fmt.Sprintf("(select %s %d)", x, i), at.Elem(), depth+1))
+		}
 	case KReal:
 		c.kind = "real"
 		rc.probes = append(rc.probes, probeReq{x, func(v *sx) { c.varName = v.String() }})
@@ -463,6 +473,16 @@ func (rc *replayCtx) goExpr(c *cval) (string, error) {
 		rc.refVars[key] = v
 		c.varName = v
 		return v, nil
+	case "array":
+		var es []string
+		for _, e := range c.elems {
+			x, err := rc.goExpr(e)
+			if err != nil {
+				return "", err
+			}
+			es = append(es, x)
+		}
+		return rc.typeStr(c.goT) + "{" + strings.Join(es, ", ") + "}", nil
 	case "stream":
 		if c.isNil {
 			return "io.Reader(nil)", nil
